@@ -121,7 +121,11 @@ def random_history(ctx):
           "rtt0": rng.choice([den, den, den // 2, 2 * den, den // 8]), "den": den, "size": size, "ev": ev[:n + 6],
           "src": "random"}
     if not cubic and rng.random() < 0.2:
-        sc["echo"] = 1          # timer retransmissions are acknowledged inside out.put()
+        # timer retransmissions are acknowledged inside out.put(); a bounded flow, so that the chain of expiring timers,
+        # echoed ACKs and newly opened windows ends
+        sc["echo"] = 1
+        sc["size"] = rng.choice([3, 5, 8, 12]) * MSS
+        sc["ev"] = sc["ev"][:16]
     return sc
 
 
